@@ -176,30 +176,34 @@ def bbDebug (x : BB) : Str :=
   let h := (Nat.toDigits 16 x.toNat)
   "BitBoard(0x".toList ++ List.replicate (16 - h.length) '0' ++ h ++ [')']
 
+/-- the far-out-of-range indices of the harness (`FAR_IDX`) -/
+def farIdx : List Nat := [255, 256, 257, 263, 264, 511, 512, 519, 65535, 65536, 65543, 4294967295, 4294967296, 4294967303,
+  18446744073709551615 - 255, 18446744073709551615 - 248, 18446744073709551615]
+
 def primBlob (kind : String) : String :=
   match kind with
-  | "square" => ";".intercalate ((List.range 71).map fun i =>
+  | "square" => ";".intercalate ((List.range 256).map fun i =>
       match Sq.new? i with
       | none => s!"{i}:!"
       | some s =>
         let t := printSquare s
         let back := match parseSquare t with | .ok x => toString x.val | .error _ => "!"
         s!"{i}:{String.ofList t}:{back}:{s.rank8.val}:{s.file8.val}:{optSq s.up}:{optSq s.down}:{optSq s.left}:{optSq s.right}:{b01 s.isLight}:{b01 s.isDark}")
-  | "file" => ";".intercalate ((List.range 10).map fun i =>
+  | "file" => ";".intercalate ((List.range 10 ++ farIdx).map fun i =>
       match idx8? i with
       | none => s!"{i}:!"
       | some f => let back := match parseFile (fileText f) with | .ok x => toString x.val | .error _ => "!"
         s!"{i}:{String.ofList (fileText f)}:{back}:{optIdx (pred8 f)}:{optIdx (succ8 f)}")
-  | "rank" => ";".intercalate ((List.range 10).map fun i =>
+  | "rank" => ";".intercalate ((List.range 10 ++ farIdx).map fun i =>
       match idx8? i with
       | none => s!"{i}:!"
       | some f => let back := match parseRank (rankText f) with | .ok x => toString x.val | .error _ => "!"
         s!"{i}:{String.ofList (rankText f)}:{back}:{optIdx (pred8 f)}:{optIdx (succ8 f)}")
-  | "color" => ";".intercalate ((List.range 4).map fun i =>
+  | "color" => ";".intercalate ((List.range 4 ++ farIdx).map fun i =>
       match Color.ofIdx? i with
       | none => s!"{i}:!"
       | some c => s!"{i}:{String.ofList c.name}:{c.other.idx}:{Board.backRank c}:{Board.promoRank c}")
-  | "piece" => ";".intercalate ((List.range 8).map fun i =>
+  | "piece" => ";".intercalate ((List.range 8 ++ farIdx).map fun i =>
       match PT.ofIdx? i with
       | none => s!"{i}:!"
       | some p =>
@@ -207,7 +211,7 @@ def primBlob (kind : String) : String :=
         let b := match parsePieceType (p.text.map Char.toLower) with | .ok x => toString x.idx | .error _ => "!"
         s!"{i}:{String.ofList p.text}:{a}:{b}")
   | "cr" =>
-    ";".intercalate ((List.range 6).map fun i =>
+    ";".intercalate ((List.range 6 ++ farIdx).map fun i =>
       match CR.ofIdx? i with
       | none => s!"{i}:!"
       | some r => let d := String.ofList r.show
@@ -409,6 +413,11 @@ def runOp (K : Keys) (committedKeys : String) (lite : Bool) (skipM0 : Bool) (reh
         | _, _ => "?"
       (sess, s!"text={hexText g.history.render} lookup=1 flags={commaOr fl} chain=1 ## flags={commaOr sfl}")
     | none => (sess, "bad-session ## ")
+  | "g.probe" =>
+    -- `get_position_counter(&q)` for an arbitrary board `q`: the number of history positions whose (64-bit) hash is `q`'s
+    match sess, boardOfRaw (arg 1) with
+    | some ⟨g, _, _, _⟩, some q => (sess, s!"cnt={g.positionCounter q} ## ")
+    | _, _ => (sess, "bad-session ## ")
   | "g.tag" =>
     -- `get_metadata_mut().set_value(key, value)` on the session's game
     match sess, unhexText (arg 1), unhexText (arg 2) with
